@@ -431,10 +431,23 @@ def monitor (evs : List Ev) (quiescent : Bool) : Option String :=
 /-- `verifdrv WorkQueue <log>` -/
 def drive (lines : List String) : IO UInt32 := do
   match initArgs lines with
-  | ["workqueue"] =>
+  | "workqueue" :: rest =>
+    -- the harness may add `base` to both counters once, mid-session (a session that never
+    -- found the fifo empty): the model counts from 0, so logged counter values at or above
+    -- `base` are rebased (real values of these short runs are tiny compared with it)
+    let base := (rest.head?.bind String.toNat?).getD 0
+    let rb (x : Nat) : Nat := if base > 0 ∧ x ≥ base then x - base else x
+    let rebase (r : RawEv) : Option Ev :=
+      match ofRaw r with
+      | some (.faddIn t o) => some (.faddIn t (rb o))
+      | some (.fsubIn t o p) => some (.fsubIn t (rb o) (rb p))
+      | some (.rdIn t x) => some (.rdIn t (rb x))
+      | some (.rdOut t x) => some (.rdOut t (rb x))
+      | some (.wrOut t x) => some (.wrOut t (rb x))
+      | x => x
     let body := lines.filter (fun l => !isInit l)
-    let v := validate sys ofRaw body
-    let evs := body.filterMap (fun l => (parseLine l).bind ofRaw)
+    let v := validate sys rebase body
+    let evs := body.filterMap (fun l => (parseLine l).bind rebase)
     report "WorkQueue" v (monitor evs true)
   | _ => IO.println "VALIDATE DIVERGE missing init"; return 1
 
